@@ -4,12 +4,12 @@
   `/repo/jaq-json/src/{num,lib}.rs` by the correspondence of `bin/check C09`).
 -/
 import JaqVerif.Val.Arith
+import JaqVerif.C09.Consumers
+import JaqVerif.Lemmas.C09Repr
+import JaqVerif.Lemmas.C09Ops
 
 namespace Jaq.C09
 open Jaq
-
-/-- a number is an integer with exact value `x` (any representation) -/
-def IsInt (n : Num) (x : Int) : Prop := n.intVal? = some x
 
 theorem ofInt_val (i : Int) : IsInt (Num.ofInt i) i := by
   unfold IsInt Num.ofInt; split <;> rfl
@@ -97,10 +97,6 @@ theorem mixed_add_is_float (x : Int) (f : UInt64) :
 
 /-! ### representation independence of the integer consumers -/
 
-/-- two well-formed integer representations of the same value -/
-def SameInt (a b : Num) : Prop :=
-  ∃ x : Int, IsInt a x ∧ IsInt b x ∧ a.wf = true ∧ b.wf = true
-
 theorem fitsIsize_iff (x : Int) :
     fitsIsize x = true ↔ -9223372036854775808 ≤ x ∧ x ≤ 9223372036854775807 := by
   unfold fitsIsize isizeMin isizeMax
@@ -168,6 +164,185 @@ theorem repr_independent_arith {a b : Num} (h : SameInt a b) {c : Num} {y : Int}
   · rw [int_sub_exact ha hc, int_sub_exact hb hc]
   · rw [int_mul_exact ha hc, int_mul_exact hb hc]
   · rw [int_neg_exact ha, int_neg_exact hb]
+
+
+/-! ## Round 2 — representation independence completed, consumer by consumer
+
+`SameInt a b`: two well-formed representations (machine / big) of the same integer.  The consumer
+models are in `JaqVerif/C09/Consumers.lean` (function by function after the Rust code, tied to it
+by the `c09.*` correspondence ops).  Besides independence, each consumer is shown to compute the
+documented function of the integer *value* for every magnitude (`…_exact`). -/
+
+/-- **hash**: the machine and the big representation of an integer feed the same words to the
+hasher (so an `IndexMap` probe for one finds a key stored as the other) -/
+theorem repr_independent_hash {a b : Num} (h : SameInt a b) : Num.hashFeed a = Num.hashFeed b :=
+  sameInt_elim (P := fun a b => Num.hashFeed a = Num.hashFeed b) h (fun _ => rfl)
+    (fun x hx => ⟨hashFeed_repr x hx, (hashFeed_repr x hx).symm⟩)
+
+/-- comparison as the tree has it now (`big_float_cmp`, fix 18a519c), against every third number -/
+theorem repr_independent_cmp_tree {a b : Num} (h : SameInt a b) (c : Num) :
+    numCmp a c = numCmp b c ∧ numCmp c a = numCmp c b :=
+  sameInt_elim (P := fun a b => numCmp a c = numCmp b c ∧ numCmp c a = numCmp c b) h
+    (fun _ => ⟨rfl, rfl⟩)
+    (fun x hx => ⟨numCmp_repr x hx c, ((numCmp_repr x hx c).1.symm), ((numCmp_repr x hx c).2.symm)⟩)
+
+/-- on integers (any representation, any magnitude) the comparison is the comparison of the values
+and `==` is equality of the values -/
+theorem int_cmp_exact {a b : Num} {x y : Int} (ha : IsInt a x) (hb : IsInt b y) :
+    numCmp a b = compare x y ∧ Num.cmp a b = compare x y ∧ Num.eq a b = (x == y) := by
+  refine ⟨numCmp_ints ha hb, ?_, numEq_ints ha hb⟩
+  rcases isInt_cases ha with rfl | rfl <;> rcases isInt_cases hb with rfl | rfl <;> rfl
+
+/-- **indexing** of arrays and byte strings -/
+theorem repr_independent_index {a b : Num} (h : SameInt a b) (l : List Val) (s : List UInt8) :
+    indexArr l (.num a) = indexArr l (.num b) ∧ indexBytes s (.num a) = indexBytes s (.num b) :=
+  sameInt_elim (P := fun a b => indexArr l (.num a) = indexArr l (.num b) ∧
+      indexBytes s (.num a) = indexBytes s (.num b)) h (fun _ => ⟨rfl, rfl⟩)
+    (fun x hx => by
+      simp only [indexArr, indexBytes, Num.isInt, asPosUsize_repr x hx]
+      simp)
+
+/-- … and what it computes: position `x` from the front, `-x` from the back, `null` (here `none`)
+outside, for an integer of **any** magnitude (also beyond `usize::MAX`, where the repaired
+`as_pos_usize` saturates) in either representation -/
+theorem index_exact {n : Num} {x : Int} (h : IsInt n x) (l : List Val) (hl : l.length < usizeMaxNat) :
+    indexArr l (.num n) = .ok ((posOf x l.length).bind fun j => l[j]?) := by
+  have hi : n.isInt = true := by rcases isInt_cases h with rfl | rfl <;> rfl
+  simp only [indexArr, hi, if_true]
+  rw [absIndex_int n x h l.length hl]
+
+/-- **slicing**: a bound may be given in either representation, on either side, for arrays,
+byte strings and text strings -/
+theorem repr_independent_slice {a b : Num} (h : SameInt a b) (o : Val) (l : List Val) (s : List UInt8) :
+    sliceArr l (.num a) o = sliceArr l (.num b) o ∧ sliceArr l o (.num a) = sliceArr l o (.num b) ∧
+    sliceBytes s (.num a) o = sliceBytes s (.num b) o ∧ sliceBytes s o (.num a) = sliceBytes s o (.num b) ∧
+    sliceText s (.num a) o = sliceText s (.num b) o ∧ sliceText s o (.num a) = sliceText s o (.num b) :=
+  sameInt_elim (P := fun a b =>
+    sliceArr l (.num a) o = sliceArr l (.num b) o ∧ sliceArr l o (.num a) = sliceArr l o (.num b) ∧
+    sliceBytes s (.num a) o = sliceBytes s (.num b) o ∧ sliceBytes s o (.num a) = sliceBytes s o (.num b) ∧
+    sliceText s (.num a) o = sliceText s (.num b) o ∧ sliceText s o (.num a) = sliceText s o (.num b)) h
+    (fun _ => ⟨rfl, rfl, rfl, rfl, rfl, rfl⟩)
+    (fun x hx => by
+      simp only [sliceArr, sliceBytes, sliceText, rangeInt, rangeBound_repr x hx]
+      simp)
+
+/-- … and what it computes: both bounds clipped into `[0, len]` (`clip`), for integers of any
+magnitude in any representation -/
+theorem slice_exact {a b : Num} {x y : Int} (ha : IsInt a x) (hb : IsInt b y) (l : List Val)
+    (hl : l.length ≤ usizeMaxNat) :
+    sliceArr l (.num a) (.num b) =
+      .ok ((l.drop (clip x l.length)).take (clip y l.length - clip x l.length)) := by
+  have pa : ∃ p, asPosUsize a = some p := by rcases isInt_cases ha with rfl | rfl <;> exact ⟨_, rfl⟩
+  have pb : ∃ p, asPosUsize b = some p := by rcases isInt_cases hb with rfl | rfl <;> exact ⟨_, rfl⟩
+  obtain ⟨p, hp⟩ := pa
+  obtain ⟨q, hq⟩ := pb
+  have e1 := absBound_int a x ha l.length 0 hl
+  have e2 := absBound_int b y hb l.length l.length hl
+  rw [hp] at e1; rw [hq] at e2
+  simp only [sliceArr, rangeInt, rangeBound, hp, hq, skipTake, e1, e2]
+
+/-- **`limit`**: the counter loop (`while_gtz!`: test `> 0`, subtract 1 with the value arithmetic)
+takes exactly `max x 0` outputs for an integer count of any magnitude in any representation -/
+theorem limit_exact {α : Type} {n : Num} {x : Int} (h : IsInt n x) (xs : List α) :
+    limit n xs = xs.take x.toNat :=
+  limitGo_int _ n x xs h (Nat.lt_succ_self _)
+
+/-- **`skip`**: drops exactly `max x 0` outputs (errors among them are passed on, as the code does) -/
+theorem skip_exact {α : Type} (isErr : α → Bool) {n : Num} {x : Int} (h : IsInt n x) (xs : List α) :
+    skip isErr n xs = (xs.take x.toNat).filter isErr ++ xs.drop x.toNat :=
+  skipGo_int isErr _ n x xs h (Nat.lt_succ_self _)
+
+theorem repr_independent_limit_skip {α : Type} (isErr : α → Bool) {a b : Num} (h : SameInt a b) (xs : List α) :
+    limit a xs = limit b xs ∧ skip isErr a xs = skip isErr b xs := by
+  obtain ⟨x, ha, hb, _, _⟩ := h
+  rw [limit_exact ha, limit_exact hb, skip_exact isErr ha, skip_exact isErr hb]
+  exact ⟨rfl, rfl⟩
+
+/-- **`range($from; $to; $by)`** on integers: every output is an integer, and the outputs are
+exactly `from, from+by, from+2·by, …` while the loop condition holds — exact stepping at any
+magnitude, whatever the representations of the three arguments and of the running value
+(which changes representation when it crosses ±2^63) -/
+theorem range_exact (fuel : Nat) {vf vt vb : Num} {f t b : Int}
+    (hf : IsInt vf f) (ht : IsInt vt t) (hb : IsInt vb b) :
+    (range fuel vf vt vb).map Num.intVal? = (rangeInts fuel f t b).map some := by
+  unfold range
+  rw [numCmp_ints hb (show IsInt (.int 0) 0 from rfl)]
+  exact rangeGo_int fuel vf vt vb f t b hf ht hb
+
+theorem repr_independent_range (fuel : Nat) {a a' b b' c c' : Num}
+    (h1 : SameInt a a') (h2 : SameInt b b') (h3 : SameInt c c') :
+    (range fuel a b c).map Num.intVal? = (range fuel a' b' c').map Num.intVal? := by
+  obtain ⟨x, ha, ha', _, _⟩ := h1
+  obtain ⟨y, hb, hb', _, _⟩ := h2
+  obtain ⟨z, hc, hc', _, _⟩ := h3
+  rw [range_exact fuel ha hb hc, range_exact fuel ha' hb' hc']
+
+/-- **`tobytes`**, **`implode`**, **`ldexp/scalb/scalbln` exponent** (`try_as_isize`, `try_as_i32`) -/
+theorem repr_independent_isize_consumers {a b : Num} (h : SameInt a b) :
+    byteOfNum a = byteOfNum b ∧ toBytes (.num a) = toBytes (.num b) ∧
+    tryAsIsize (.num a) = tryAsIsize (.num b) ∧ tryAsI32 (.num a) = tryAsI32 (.num b) ∧
+    implode1 (.num a) = implode1 (.num b) ∧
+    (∀ pre post, implode (pre ++ .num a :: post) = implode (pre ++ .num b :: post)) :=
+  sameInt_elim (P := fun a b => byteOfNum a = byteOfNum b ∧ toBytes (.num a) = toBytes (.num b) ∧
+    tryAsIsize (.num a) = tryAsIsize (.num b) ∧ tryAsI32 (.num a) = tryAsI32 (.num b) ∧
+    implode1 (.num a) = implode1 (.num b) ∧
+    (∀ pre post, implode (pre ++ .num a :: post) = implode (pre ++ .num b :: post))) h
+    (fun _ => ⟨rfl, rfl, rfl, rfl, rfl, fun _ _ => rfl⟩)
+    (fun x hx => by
+      have e := asIsize_repr x hx
+      have i1 : implode1 (.num (.int x)) = implode1 (.num (.big x)) := by
+        simp only [implode1, tryAsIsize, e]
+      refine ⟨⟨?_, ?_, ?_, ?_, i1, fun pre post => implode_congr pre post _ _ i1⟩,
+              ⟨?_, ?_, ?_, ?_, i1.symm, fun pre post => implode_congr pre post _ _ i1.symm⟩⟩ <;>
+        simp only [byteOfNum, toBytes, toBytesF, Val.size, tryAsI32, tryAsIsize, e])
+
+/-- what they compute from the value: a byte for `0..=255`; an `i32` exponent for `-2^31 ..= 2^31-1`
+(out of range is an error in **both** representations, never a wrapped value) -/
+theorem isize_consumers_exact {n : Num} {x : Int} (h : IsInt n x) (w : n.wf = true) :
+    byteOfNum n = (if 0 ≤ x ∧ x ≤ 255 then some (UInt8.ofNat x.toNat) else none) ∧
+    tryAsI32 (.num n) = (if -2147483648 ≤ x ∧ x ≤ 2147483647 then .ok x
+                         else if fitsIsize x then .error .other else .error .typInt) := by
+  have e := asIsize_int h w
+  by_cases hf : fitsIsize x = true
+  · simp only [byteOfNum, tryAsI32, tryAsIsize, e, hf, if_true]
+    simp
+  · have hb := not_fits hf
+    simp only [byteOfNum, tryAsI32, tryAsIsize, e, hf, if_false, Bool.false_eq_true]
+    refine ⟨?_, ?_⟩
+    · rw [if_neg (by omega)]
+    · rw [if_neg (by omega)]
+
+/-- **object keys**: a look-up with one representation finds the key stored as the other
+(hash feed and `==` agree), and an entry stored under either representation is found by the same keys -/
+theorem repr_independent_key {a b : Num} (h : SameInt a b) (o : Obj.Entries) (k v : Val) :
+    Obj.get o (.num a) = Obj.get o (.num b) ∧ Obj.has o (.num a) = Obj.has o (.num b) ∧
+    Obj.get ((.num a, v) :: o) k = Obj.get ((.num b, v) :: o) k :=
+  sameInt_elim (P := fun a b => Obj.get o (.num a) = Obj.get o (.num b) ∧
+      Obj.has o (.num a) = Obj.has o (.num b) ∧
+      Obj.get ((.num a, v) :: o) k = Obj.get ((.num b, v) :: o) k) h (fun _ => ⟨rfl, rfl, rfl⟩)
+    (fun x hx => by
+      have g1 := get_congr o (.num (.int x)) (.num (.big x)) (fun q => (sameKey_repr x hx q).1)
+      have s2 := (sameKey_repr x hx k).2
+      refine ⟨⟨g1, by simp only [Obj.has, g1], ?_⟩, ⟨g1.symm, by simp only [Obj.has, g1], ?_⟩⟩ <;>
+        (simp only [Obj.get, List.find?_cons, s2]; cases Obj.sameKey k (.num (.big x)) <;> rfl))
+
+/-- **decimal rendering** (`tostring`, `tojson`, `@text`, `@json`): the text depends on the value only
+and reads back as exactly that integer, at any size -/
+theorem int_render_exact {n : Num} {x : Int} (h : IsInt n x) :
+    renderInt n = some (C07.intText x) ∧ C07.intOfText (C07.intText x) = x := by
+  refine ⟨?_, C07.intOfText_intText x⟩
+  rcases isInt_cases h with rfl | rfl <;> rfl
+
+theorem repr_independent_render {a b : Num} (h : SameInt a b) : renderInt a = renderInt b := by
+  obtain ⟨x, ha, hb, _, _⟩ := h
+  rw [(int_render_exact ha).1, (int_render_exact hb).1]
+
+example : indexArr [.null, .bool true] (.num (.big (-1))) = .ok (some (.bool true)) := by rfl
+example : sliceArr [.null, .bool true] (.num (.big (-36893488147419103232))) (.num (.big 36893488147419103232))
+    = .ok [.null, .bool true] := by rfl
+example : (range 5 (.int 9223372036854775806) (.big 9223372036854775810) (.int 2)).map Num.intVal?
+    = [some 9223372036854775806, some 9223372036854775808] := by decide
+example : limit (.big 2) [1, 2, 3] = [1, 2] := by decide
 
 /-! ### the non-numeric cases of the operators (manual, "Arithmetic operators") -/
 
@@ -238,6 +413,81 @@ theorem neg_else_errors (v : Val) (h : ∀ n, v ≠ .num n) : ∃ e, Val.neg v =
 theorem rem_else_errors (l r : Val) (h : ∀ x y, ¬ (l = .num x ∧ r = .num y)) :
     ∃ e, Val.rem l r = .error e := by
   cases l <;> cases r <;> simp_all [Val.rem]
+
+
+/-! ### round 2: the remaining operator equations -/
+
+/-- **object `*` merges recursively** (fuel-free law of `obj_merge`): the right entries are folded in
+order into the left object by `mergeStep`: a key present on both sides with object values is merged
+recursively *in place*, any other key present on the left is overwritten in place (key and position
+kept), a new key is appended -/
+theorem obj_mul_recursive_merge (l r : Obj.Entries) :
+    Val.mul (.obj l) (.obj r) = .ok (.obj (r.foldl (mergeStep objMerge) l)) :=
+  obj_mul_recursive_merge_lem l r
+
+/-- the three cases of one merged entry, and the empty right operand -/
+theorem obj_merge_cases (l : Obj.Entries) (k v x : Val) (lo ro : Obj.Entries) :
+    objMerge l [] = l ∧
+    (Obj.get l k = none → objMerge l [(k, v)] = l ++ [(k, v)]) ∧
+    (Obj.get l k = some (.obj lo) → objMerge l [(k, .obj ro)] = replaceAt l k (.obj (objMerge lo ro))) ∧
+    (Obj.get l k = some x → (∀ lo, x ≠ .obj lo) → objMerge l [(k, v)] = replaceAt l k v) ∧
+    (Obj.get l k = some x → (∀ ro, v ≠ .obj ro) → objMerge l [(k, v)] = replaceAt l k v) ∧
+    (replaceAt l k v).map (·.1) = l.map (·.1) :=
+  ⟨objMerge_nil l, objMerge_absent l k v, objMerge_both_obj l k lo ro,
+   objMerge_left_nonobj l k v x, objMerge_right_nonobj l k v x, replaceAt_keys l k v⟩
+
+/-- merging is sequential in the right operand -/
+theorem obj_merge_append (l r₁ r₂ : Obj.Entries) :
+    objMerge l (r₁ ++ r₂) = objMerge (objMerge l r₁) r₂ := by
+  rw [objMerge_eq_foldl, objMerge_eq_foldl (objMerge l r₁), objMerge_eq_foldl l r₁, List.foldl_append]
+
+/-- **string `/` splits with `join` as its inverse** — for every string and every separator: a
+non-empty separator (leftmost non-overlapping occurrences), the empty separator (the parts are the
+characters), the empty string (no parts; `[] | join(s)` is `""`).  `joinBytes` follows `def join` of
+`defs.jq`; it is `List.intercalate`. -/
+theorem join_split_inverse (s sep : List UInt8) : joinBytes sep (splitBytes s sep) = s :=
+  join_split_inverse_lem s sep
+
+theorem div_join_inverse (s sep : List UInt8) :
+    Val.div (.tstr s) (.tstr sep) = .ok (.arr ((splitBytes s sep).map .tstr)) ∧
+    joinBytes sep (splitBytes s sep) = s := div_join_inverse_lem s sep
+
+/-- the edge cases as the code has them, and: no part contains a non-empty separator -/
+theorem split_edge_cases (s sep : List UInt8) :
+    splitBytes [] sep = [] ∧ (s ≠ [] → splitBytes s [] = Utf8.chars s) ∧
+    (s ≠ [] → sep ≠ [] → splitBytes s sep ≠ []) ∧
+    (sep ≠ [] → ∀ p ∈ splitBytes s sep, ¬ sep <:+: p) ∧
+    joinBytes sep (splitBytes s sep) = List.intercalate sep (splitBytes s sep) :=
+  ⟨splitBytes_nil sep, splitBytes_empty_sep s, splitBytes_ne_nil s sep,
+   split_parts_not_infix_lem s sep, joinBytes_eq_intercalate sep _⟩
+
+/-- **everything else is an error**, by exhaustive constructor cases, for `+`, `*`, `/`
+(`-`, `%`, unary `-`: `sub_else_errors`, `rem_else_errors`, `neg_else_errors` above) -/
+theorem add_else_errors (l r : Val) (h0 : l ≠ .null) (h0' : r ≠ .null)
+    (h1 : ∀ x y, ¬ (l = .num x ∧ r = .num y)) (h2 : ∀ x y, ¬ (l = .bstr x ∧ r = .bstr y))
+    (h3 : ∀ x y, ¬ (l = .tstr x ∧ r = .tstr y)) (h4 : ∀ x y, ¬ (l = .arr x ∧ r = .arr y))
+    (h5 : ∀ x y, ¬ (l = .obj x ∧ r = .obj y)) : Val.add l r = .error (.math l "+" r) :=
+  add_else_errors_lem l r h0 h0' h1 h2 h3 h4 h5
+
+theorem mul_else_errors (l r : Val) (h1 : ∀ x y, ¬ (l = .num x ∧ r = .num y)) (h2 : ∀ x y, ¬ (l = .obj x ∧ r = .obj y))
+    (h3 : ∀ s n, ¬ (l = .tstr s ∧ r = .num n)) (h4 : ∀ s n, ¬ (l = .num n ∧ r = .tstr s))
+    (h5 : ∀ s n, ¬ (l = .bstr s ∧ r = .num n)) (h6 : ∀ s n, ¬ (l = .num n ∧ r = .bstr s)) :
+    Val.mul l r = .error (.math l "*" r) :=
+  mul_else_errors_lem l r h1 h2 h3 h4 h5 h6
+
+/-- … and a string times a number that is not an integer is an error as well -/
+theorem str_mul_nonint_errors (s : List UInt8) (n : Num) (h : n.isInt = false) :
+    (∃ e, Val.mul (.tstr s) (.num n) = .error e) ∧ (∃ e, Val.mul (.num n) (.tstr s) = .error e) ∧
+    (∃ e, Val.mul (.bstr s) (.num n) = .error e) ∧ (∃ e, Val.mul (.num n) (.bstr s) = .error e) :=
+  str_mul_nonint_errors_lem s n h
+
+theorem div_else_errors (l r : Val) (h1 : ∀ x y, ¬ (l = .num x ∧ r = .num y))
+    (h2 : ∀ x y, ¬ (l = .tstr x ∧ r = .tstr y)) (h3 : ∀ x y, ¬ (l = .bstr x ∧ r = .bstr y)) :
+    Val.div l r = .error (.math l "/" r) :=
+  div_else_errors_lem l r h1 h2 h3
+
+example : Val.add (.bool true) (.num (.int 1)) = .error (.math (.bool true) "+" (.num (.int 1))) :=
+  add_else_errors _ _ (by simp) (by simp) (by simp) (by simp) (by simp) (by simp) (by simp)
 
 /-! ### non-vacuity: concrete states meeting the hypotheses -/
 
